@@ -50,7 +50,11 @@ pub fn col_values(a: &dyn Array) -> Vec<V> {
                 })
                 .collect()
         }
-        other => panic!("col_values: unsupported type {other:?}"),
+        _ => {
+            // every other (flat) type: the display form of the value, which is injective on the generated data
+            let f = arrow_cast::display::ArrayFormatter::try_new(a, &arrow_cast::display::FormatOptions::default()).expect("formatter");
+            (0..n).map(|i| if a.is_null(i) { V::Null } else { V::S(f.value(i).to_string()) }).collect()
+        }
     }
 }
 
@@ -285,6 +289,8 @@ pub struct PqFile {
     pub nleaves: usize,
     /// the data that was written, as logical rows (the unrestricted read is compared to this once)
     pub written: Vec<Vec<V>>,
+    /// Some for files of the type x encoding grid (then sid / lid are unused)
+    pub grid: Option<GridSpec>,
 }
 
 pub fn make_file(sid: usize, lid: usize, n: usize) -> PqFile {
@@ -320,5 +326,140 @@ pub fn make_file(sid: usize, lid: usize, n: usize) -> PqFile {
         schema: batch.schema(),
         nleaves,
         written: batch_rows(&batch),
+        grid: None,
     }
+}
+
+// ------------------------------------------------------------------------------------------------
+// type x value-encoding grid: single flat column files, one per (arrow type, encoding, page version,
+// nullability, page layout)
+
+#[derive(Clone, Copy, Debug, PartialEq, Eq)]
+pub struct GridSpec {
+    pub ty: usize,
+    pub enc: usize,
+    pub v2: bool,
+    pub nullable: bool,
+    /// true: 3 rows per data page; false: all rows in one data page
+    pub paged: bool,
+}
+
+pub const GRID_TYPES: [&str; 14] = [
+    "Boolean",
+    "Int32",
+    "Int64",
+    "Float32",
+    "Float64",
+    "Utf8",
+    "Binary",
+    "Utf8View",
+    "FixedSizeBinary(3)",
+    "Float16",
+    "Decimal128(20,2)",
+    "Decimal256(40,3)",
+    "Interval(DayTime)",
+    "Decimal128(10,2)",
+];
+/// parquet physical type of each grid type
+pub const GRID_PHYS: [&str; 14] = ["BOOLEAN", "INT32", "INT64", "FLOAT", "DOUBLE", "BYTE_ARRAY", "BYTE_ARRAY", "BYTE_ARRAY", "FLBA", "FLBA", "FLBA", "FLBA", "FLBA", "INT64"];
+pub const GRID_ENCS: [&str; 7] = ["PLAIN", "DICTIONARY", "DELTA_BINARY_PACKED", "DELTA_LENGTH_BYTE_ARRAY", "DELTA_BYTE_ARRAY", "BYTE_STREAM_SPLIT", "RLE"];
+
+/// value encodings the Parquet format defines for the physical type of grid type `ty`
+pub fn grid_encodings(ty: usize) -> Vec<usize> {
+    match GRID_PHYS[ty] {
+        "BOOLEAN" => vec![0, 6],
+        "INT32" | "INT64" => vec![0, 1, 2, 5],
+        "FLOAT" | "DOUBLE" => vec![0, 1, 5],
+        "BYTE_ARRAY" => vec![0, 1, 3, 4],
+        _ => vec![0, 1, 4, 5],
+    }
+}
+
+fn grid_array(ty: usize, n: usize, nullable: bool) -> ArrayRef {
+    use arrow_array::*;
+    let null = |i: usize| nullable && i % 3 == 1;
+    macro_rules! col {
+        ($arr:ty, $f:expr) => {
+            Arc::new((0..n).map(|i| if null(i) { None } else { Some($f(i)) }).collect::<$arr>()) as ArrayRef
+        };
+    }
+    match ty {
+        0 => col!(BooleanArray, |i: usize| i % 3 == 0 || i % 5 == 2),
+        1 => col!(Int32Array, |i: usize| 1000 + 7 * i as i32 - if i % 2 == 0 { 2000 } else { 0 }),
+        2 => col!(Int64Array, |i: usize| (1i64 << 40) + 13 * i as i64 - if i % 2 == 0 { 1i64 << 41 } else { 0 }),
+        3 => col!(Float32Array, |i: usize| i as f32 * 1.5 - 3.25),
+        4 => col!(Float64Array, |i: usize| i as f64 * 2.5e10 - 7.125),
+        5 => col!(StringArray, |i: usize| if i == 2 { String::new() } else { format!("s{i}{}", "xy".repeat(i % 4)) }),
+        6 => col!(BinaryArray, |i: usize| { let mut v = vec![i as u8; 1 + i % 3]; v.push(0xF0); v }),
+        7 => Arc::new((0..n).map(|i| if null(i) { None } else { Some(if i % 2 == 0 { format!("v{i}") } else { format!("a-view-longer-than-twelve-bytes-{i}") }) }).collect::<StringViewArray>()),
+        8 => Arc::new(FixedSizeBinaryArray::try_from_sparse_iter_with_size((0..n).map(|i| if null(i) { None } else { Some(vec![i as u8, 0xA0 + i as u8, 0x55 ^ (i as u8 * 3)]) }), 3).unwrap()),
+        9 => col!(Float16Array, |i: usize| half::f16::from_f32(i as f32 * 0.5 - 1.25)),
+        10 => Arc::new((0..n).map(|i| if null(i) { None } else { Some((i as i128 + 1) * 1_000_000_000_000_000_007 - if i % 2 == 0 { 3_000_000_000_000_000_000 } else { 0 }) }).collect::<Decimal128Array>().with_precision_and_scale(20, 2).unwrap()),
+        11 => Arc::new(
+            (0..n)
+                .map(|i| if null(i) { None } else { Some(arrow_buffer::i256::from_i128((i as i128 + 1) * 1_000_000_000_000_000_000_000_000_007 - if i % 2 == 1 { 5_000_000_000_000_000_000_000_000_000 } else { 0 })) })
+                .collect::<Decimal256Array>()
+                .with_precision_and_scale(40, 3)
+                .unwrap(),
+        ),
+        12 => col!(IntervalDayTimeArray, |i: usize| arrow_buffer::IntervalDayTime::new(i as i32 - 2, 1000 * i as i32 + 7)),
+        13 => Arc::new((0..n).map(|i| if null(i) { None } else { Some(12345 + 1001 * i as i128 - if i % 2 == 0 { 50000 } else { 0 }) }).collect::<Decimal128Array>().with_precision_and_scale(10, 2).unwrap()),
+        _ => unreachable!(),
+    }
+}
+
+/// Writes one grid file. Err(reason) when the writer refuses the combination or did not use the encoding.
+pub fn make_grid_file(spec: GridSpec, n: usize) -> Result<PqFile, String> {
+    use parquet::basic::Encoding;
+    let arr = grid_array(spec.ty, n, spec.nullable);
+    let schema = Arc::new(Schema::new(vec![Field::new("c", arr.data_type().clone(), spec.nullable)]));
+    let batch = RecordBatch::try_new(schema.clone(), vec![arr]).map_err(|e| e.to_string())?;
+    let mut pb = WriterProperties::builder()
+        .set_writer_version(if spec.v2 { WriterVersion::PARQUET_2_0 } else { WriterVersion::PARQUET_1_0 })
+        .set_created_by("vk-pqread".into());
+    let enc = match spec.enc {
+        0 => Some(Encoding::PLAIN),
+        1 => None,
+        2 => Some(Encoding::DELTA_BINARY_PACKED),
+        3 => Some(Encoding::DELTA_LENGTH_BYTE_ARRAY),
+        4 => Some(Encoding::DELTA_BYTE_ARRAY),
+        5 => Some(Encoding::BYTE_STREAM_SPLIT),
+        _ => Some(Encoding::RLE),
+    };
+    pb = match enc {
+        Some(e) => pb.set_dictionary_enabled(false).set_encoding(e),
+        None => pb.set_dictionary_enabled(true),
+    };
+    if spec.paged {
+        pb = pb.set_data_page_row_count_limit(3).set_write_batch_size(1);
+    }
+    let mut out: Vec<u8> = vec![];
+    {
+        let mut w = ArrowWriter::try_new(&mut out, schema.clone(), Some(pb.build())).map_err(|e| format!("writer: {e}"))?;
+        w.write(&batch).map_err(|e| format!("write: {e}"))?;
+        let md = w.close().map_err(|e| format!("close: {e}"))?;
+        // the requested encoding must actually have been used for the data pages
+        let used: Vec<Encoding> = md.row_group(0).column(0).encodings().collect();
+        let ok = match enc {
+            Some(e) => used.contains(&e),
+            None => used.contains(&Encoding::RLE_DICTIONARY) || used.contains(&Encoding::PLAIN_DICTIONARY),
+        };
+        if !ok {
+            return Err(format!("writer used {used:?} instead of the requested encoding"));
+        }
+    }
+    let layout = Layout { three_rg: false, rows_per_page: if spec.paged { 3 } else { 0 }, offset_index: true, dict: spec.enc == 1, v2: spec.v2 };
+    Ok(PqFile {
+        name: format!("grid/{}/{}/{}/{}/{}", GRID_TYPES[spec.ty], GRID_ENCS[spec.enc], if spec.v2 { "v2" } else { "v1" }, if spec.nullable { "nullable" } else { "required" }, if spec.paged { "3-rows-per-page" } else { "one-page" }),
+        sid: 0,
+        lid: 0,
+        layout,
+        bytes: Bytes::from(out),
+        nrows: n,
+        rg_sizes: vec![n],
+        schema,
+        nleaves: 1,
+        written: batch_rows(&batch),
+        grid: Some(spec),
+    })
 }
